@@ -615,7 +615,17 @@ def check_dlpoly(rep, F, consts):
 def check_xyz_pdb(rep, F, consts):
     # writer factor: getPos(Bead) helper
     for cls, helper_arg in (("XYZWriter", "std::unique_ptr<votca::csg::Bead"), ("PDBWriter", "const votca::csg::Bead")):
-        cand = [f for f in F.find(C + cls + "::getPos") if f.j["template"] in ("none", "instantiation") and helper_arg in f.j["sig"]]
+        # the overload the Topology instantiation of the writer really calls (not the one that looks meant for beads): the call's parameter
+        # types select it - with BeadContainer = deque<Bead> a getPos(std::unique_ptr<Bead>&) overload is never chosen
+        called = None
+        for w_ in F.find(C + cls + ("::Write" if cls == "XYZWriter" else "::WriteContainer")):
+            if w_.j["template"] != "instantiation" or "Topology" not in w_.j["sig"] + (w_.j.get("qname_targs") or ""):
+                continue
+            for n_ in w_.walk():
+                if n_.get("k") in ("mcall", "call") and (n_.get("callee") or "") == C + cls + "::getPos" and n_.get("ptypes"):
+                    called = n_["ptypes"][0].replace(" ", "")
+        cand = [f for f in F.find(C + cls + "::getPos") if f.j["template"] in ("none", "instantiation") and
+                (called is not None and called in f.j["sig"].replace(" ", "") or called is None and helper_arg in f.j["sig"])]
         if len(cand) != 1:
             rep.broken("R8.1", "%s::getPos(Bead) helper not found (%d candidates)" % (cls, len(cand)))
             continue
@@ -626,7 +636,8 @@ def check_xyz_pdb(rep, F, consts):
         ca = coeff_atom(v[0], consts) if isinstance(v, Matrix) else None
         ok = ca is not None and abs(ca[0] - 10) < 1e-9 and ".x" in ca[1]
         rep.check(ok, "R8.1", "%s|writer-factor" % cls.lower()[:3], "%s writes positions x10 (nm -> Angstrom)" % cls,
-                  "%s::getPos(Bead) returns %s (expected position x nm2ang)" % (cls, str(v)[:120]), f.loc(), sample=True)
+                  "%s: the getPos overload called for the beads of a Topology (%s) returns %s; expected the position x nm2ang (= 10): the coordinates are written in the wrong unit "
+                  "(the reader multiplies by ang2nm, so they do not come back)" % (cls, f.j["sig"][:80], str(v)[:120]), f.loc(), sample=True)
         wr = [x for x in F.find(C + cls + ("::Write" if cls == "XYZWriter" else "::WriteContainer")) if x.j["template"] == "instantiation"]
         for w in wr:
             rep.analysed(w)
